@@ -15,19 +15,19 @@ CLAIMED = {
     technique="SAT-based bounded model checking (Kani/CBMC) of one inductive step over a symbolic reference-count word; native replay under valgrind",
     design="§4 C03"),
  "C04": dict(
-    text="Bounded model checking (Kani/CBMC) of the real mutable-storage allocator FreeList<T> (instantiated at u8): one weak collection and one allocation (thorough: also mark reset + recount) from EVERY 3-slot pre-state satisfying the invariant; no slot with a held handle is overwritten or freed, the new handle reads back its value, the invariant is re-established. Plus SMT queries (z3, QF_BV) over the kind tables of the tracing visitors read from the MIR of the real functions (push_back leaf list, visit dispatch, tracing call sites per visit method, SteelValPointer::from_value): no value kind is skipped by the marker or by the reference marker of sync builds while a sibling visitor traces its children.",
+    text="Bounded model checking (Kani/CBMC) of the real mutable-storage allocator FreeList<T> (instantiated at u8): one weak collection and one allocation (thorough: also mark reset + recount) from EVERY 3-slot pre-state satisfying the invariant; no slot with a held handle is overwritten or freed, the new handle reads back its value, the invariant is re-established. Plus SMT queries (z3, QF_BV) over the kind tables of the tracing visitors read from the MIR of the real functions (push_back leaf list, visit dispatch, tracing call sites per visit method, SteelValPointer::from_value): no value kind is skipped by the marker or by the reference marker of sync builds while a sibling visitor traces its children. Round 3: per visit method a rank-encoded reachability query (can the method return without passing any of its tracing calls?) and a differential query over the three visitors (no early exit that no sibling has).",
     note="N = 3 slots, >= 2 free before an allocation (growth by 25600 slots and compaction outside). Kind tables: differential between the three implementations of the same scheme (a change made identically to all three is not seen); which children a visit method pushes is interpreted only as a count of tracing call sites. Outside: completeness of the root set (needs a running VM), the order of mark-bit resets, the parallel marker's work distribution.",
     technique="SAT-based bounded model checking (Kani/CBMC) of one allocator step from a symbolic valid state, and SMT (z3, QF_BV) over MIR-extracted kind tables of the marker visitors; native replay by concrete playback / a collection-and-churn program on the real engine",
     design="§4 C04"),
  "C06": dict(
-    text="Bounded model checking (Kani/CBMC) of the real global symbol table over short symbolic evaluation histories (definitions over 3 names, slot release as the recycler does it, a failed evaluation rolled back as the engine does it) against a ghost table of the binding in force per name. Plus an SMT query over the kind table of the global-slot recycler read from MIR, compared with the markers' tables (no kind whose children the markers trace is skipped by the recycler), and one over the opcode tables of VmCore::vm and of the recycler (every opcode whose interpreter arm hands its own payload to a global accessor is on the recycler's scan list).",
+    text="Bounded model checking (Kani/CBMC) of the real global symbol table over short symbolic evaluation histories (definitions over 3 names, slot release as the recycler does it, a failed evaluation rolled back as the engine does it) against a ghost table of the binding in force per name. Plus an SMT query over the kind table of the global-slot recycler read from MIR, compared with the markers' tables (no kind whose children the markers trace is skipped by the recycler), and one over the opcode tables of VmCore::vm and of the recycler (every opcode whose interpreter arm hands its own payload to a global accessor is on the recycler's scan list). Round 3: the recycler's visit methods have no early exit in front of their tracing calls that the markers' methods lack (rank-encoded reachability per method, differential query).",
     note="hashbrown replaced by association-list stubs (trusted: finite map/set). Histories: <= 3 successful definitions, 1 definition in the failed evaluation (2 do not fit the solver's memory). Outside: the recycler's scan of closure bytecode for global indices, the compiler's choice of slots, module roll-back, JIT-embedded slots.",
     technique="SAT-based bounded model checking (Kani/CBMC) of symbolic operation histories on the real symbol table with a ghost model, and SMT (z3, QF_BV) over the MIR-extracted kind table of the slot recycler; native replay by concrete playback / a redefinition history on the real engine",
     design="§4 C06"),
  "C07": dict(
-    text="Bounded model checking (Kani/CBMC) with panic/overflow/shift/division checks on: real numeric primitives (arithmetic-shift and abs at full width, expt with exponent -30, the division family on stated operand ranges) return Ok or Err and never panic; a failed evaluation rolled back in the real symbol table leaves no residue. Plus one SMT query (z3, QF_BV) per registered built-in procedure over its MIR: no argument count reaches an out-of-bounds access of the argument vector, a failing sub-slice args[n..], or an unwrapped conversion of an argument; and (kinds) no choice of argument count, argument KINDS (37 variants of SteelVal), integer payloads and sharing reaches an explicit panic (panic!/unreachable!/todo!) of a script-callable procedure or numeric kernel along a fully interpreted path. Plus Kani harnesses of the byte-vector and string index procedures through their registered wrappers with full-width symbolic indices.",
+    text="Bounded model checking (Kani/CBMC) with panic/overflow/shift/division checks on: real numeric primitives (arithmetic-shift and abs at full width, expt with exponent -30, the division family on stated operand ranges) return Ok or Err and never panic; a failed evaluation rolled back in the real symbol table leaves no residue. Plus one SMT query (z3, QF_BV) per registered built-in procedure over its MIR: no argument count reaches an out-of-bounds access of the argument vector, a failing sub-slice args[n..], or an unwrapped conversion of an argument; and (kinds) no choice of argument count, argument KINDS (37 variants of SteelVal), integer payloads and sharing reaches an explicit panic (panic!/unreachable!/todo!) of a script-callable procedure or numeric kernel along a fully interpreted path. Plus Kani harnesses of the byte-vector and string index procedures through their registered wrappers with full-width symbolic indices. Round 3: the number-literal kernel of the reader (steel_parser parse_real, behind string->number and every numeric token) on every valid UTF-8 string of at most 4 bytes; and an SMT query per indexing site of the script-callable procedures (GenericVector::set/update/take, Vec::remove/insert, Index<usize>): exists an index and a length that pass the procedure's guards and violate the precondition of the indexing call.",
     note="Kernel level only; in the MIR queries branch conditions on the argument count, on the discriminant and integer payload of an argument and on uniqueness tests are interpreted, paths through any other branch are dropped (counted in evidence); panics inside callees are not seen. Index harnesses: 2-byte vectors, 3-character strings; lists, persistent vectors, substring, make-bytes measured out. Outside: arbitrary source text (reader not encodable, see C12), expansion/compilation, stack reset after errors, native stack depth.",
-    technique="SAT-based bounded model checking (Kani/CBMC) of real primitives with Kani's panic checks, and SMT (z3, QF_BV) over the MIR of all registered built-in procedures for argument-vector accesses and for panic sites against symbolic argument kinds; native replay by concrete playback / a script call under catch_unwind",
+    technique="SAT-based bounded model checking (Kani/CBMC) of real primitives with Kani's panic checks, and SMT (z3, QF_BV) over the MIR of all registered built-in procedures for argument-vector accesses and for index guards against the preconditions of the indexing calls behind them, and for panic sites against symbolic argument kinds; native replay by concrete playback / a script call under catch_unwind",
     design="§4 C07"),
  "C19": dict(
     text="Bounded model checking (Kani/CBMC) of the real allocator's accounting from every 3-slot pre-state: a slot without any handle is free after a weak collection; after mark_all_unreachable + marks + recount the free count equals the number of unmarked slots; the fill ratio stays in [0,1].",
@@ -35,18 +35,18 @@ CLAIMED = {
     technique="SAT-based bounded model checking (Kani/CBMC) of allocator accounting steps from a symbolic valid state",
     design="§4 C19"),
  "C20": dict(
-    text="Bounded model checking (Kani/CBMC) of the real scalar conversions at the host boundary on full-width symbolic values: Ok(v) only with the same mathematical value, out of range => Err, host integers never wrap on the way in (big integer above the machine word), round trips are the identity. Plus an SMT query per register_fn wrapper closure (MIR -> QF_BV, z3): no two different argument counts reach the host function call, and parameter k of the host call is computed from exactly args[k].",
-    note="Scalars only (i8..u128, f32, f64, char, bool, unit, Option<i32>, big-integer sources up to 2^66); arity: only branch conditions on the argument-slice length are interpreted, every other branch is free. Outside: strings/vectors/maps/sets/tuples/structs, argument value extraction in register_fn (needs an Engine), lent references (nursery is a destructor-bearing thread-local).",
+    text="Bounded model checking (Kani/CBMC) of the real scalar conversions at the host boundary on full-width symbolic values: Ok(v) only with the same mathematical value, out of range => Err, host integers never wrap on the way in (big integer above the machine word), round trips are the identity. Plus an SMT query per register_fn wrapper closure (MIR -> QF_BV, z3): no two different argument counts reach the host function call, and parameter k of the host call is computed from exactly args[k]. Round 3: rank-encoded path queries (z3) over the six wrappers that hand out a reference DERIVED from a lent reference: no path to the hand-out without marking the parent as borrowed on the same flag object, without parking the owner of the derived pointer in the nursery, or with the flag of another argument than the receiver.",
+    note="Scalars only (i8..u128, f32, f64, char, bool, unit, Option<i32>, big-integer sources up to 2^66); arity: only branch conditions on the argument-slice length are interpreted, every other branch is free. Outside: strings/vectors/maps/sets/tuples/structs, argument value extraction in register_fn (needs an Engine), lent references (nursery is a destructor-bearing thread-local). Lending: only the three control-flow facts of lib/p_lend.py; the run-time checks that use the flags, the nursery clean-up at the end of a lending call and clones of derived references are exercised by the native replay only.",
     technique="SAT-based bounded model checking (Kani/CBMC) of the real conversion impls on full-width symbolic scalars, and SMT (z3, QF_BV) over the MIR of the register_fn wrapper closures for arity and argument-to-parameter mapping; native replay by concrete playback / a script call through the real Engine",
     design="§4 C20"),
  "C10": dict(
-    text="Bounded model checking with Kani/CBMC of the real numeric primitives on symbolic operands (full 64-bit width for + - negate abs parity arithmetic-shift int/float equality; exact of every integral double; magnitude; machine integer by big integer quotient with a division model; stated smaller ranges for division, multiplication values, expt, rationals) against a 128-bit oracle and a canonical-form check; counterexamples are replayed natively with Kani's concrete playback, which runs the real code.",
+    text="Bounded model checking with Kani/CBMC of the real numeric primitives on symbolic operands (full 64-bit width for + - negate abs parity arithmetic-shift int/float equality; exact of every integral double; magnitude; machine integer by big integer quotient with a division model; stated smaller ranges for division, multiplication values, expt, rationals) against a 128-bit oracle and a canonical-form check; counterexamples are replayed natively with Kani's concrete playback, which runs the real code. Round 3: the ordering behind <, <=, >, >= (partial_cmp) for every machine integer against every finite double and against big integers just beyond 2^63, floor / ceiling of small rationals for every i32 numerator, the reciprocal of every machine integer; and an SMT query over the code generator's MIR: every integer literal packed into a 24-bit instruction payload (the operand of ADDIMMEDIATE / SUBIMMEDIATE / LTEIMMEDIATE) is below 2^24.",
     note="Trusted: Kani/CBMC; num-bigint (its `BigInt += isize`/`*= isize` are modelled by exact i128 arithmetic and the x86 carry intrinsics by their definition); feature set without jit2. `BigInt << u32` and `BigInt::pow` are recording stubs; num-bigint's long division is replaced by an exact model valid for quotient digit 0/1 (num_*_i_big). One SMT query (z3) per numeric kernel over its MIR: every pair of number kinds is handled without reaching unreachable!(); and one over the decision tree of PartialOrd::partial_cmp: every ordered pair of real-number kinds has an arm. Outside: the specialised arithmetic opcodes inlined in the VM loop, the constant folder, number<->string, gcd/lcm, expt beyond exponent -1/-30, full-width division and multiplication values, big-integer division, big operands above two limbs.",
-    technique="SAT-based bounded model checking (Kani/CBMC) of the real primitives with a 128-bit arithmetic oracle, and SMT (z3, QF_BV) over the MIR of the numeric kernels for kind-pair totality; native replay by concrete playback / a script call",
+    technique="SAT-based bounded model checking (Kani/CBMC) of the real primitives with a 128-bit arithmetic oracle, and SMT (z3, QF_BV) over the MIR of the numeric kernels for kind-pair totality and (code generator) for the range of literal operands packed into instruction payloads; native replay by concrete playback / a script call",
     design="§4 C10"),
  "C11": dict(
-    text="PARTIAL (sequences only): bounded model checking (Kani/CBMC) of the registered wrappers of bytes-ref, bytes-set!, bytes-copy, string-ref (thorough: bytes->string/utf8, integer->char) on a 2-byte vector / 3-character string with symbolic contents and full-width symbolic integer arguments: the answer is the one the mathematical sequence gives exactly for the valid indices and an error otherwise. Plus an SMT query (z3) over the decision trees of `PartialEq::eq` and `RecursiveEqualityHandler::visit` read from MIR: every kind compared by value at the top level has an arm for nested values (leaf comparison is the same at every depth). Sharing inside values (F7) and hashing are NOT decided by any check.",
-    note="Measured out: the real equality handler (drop glue of 37 variants per loop iteration: >1200 s, 12 GB; harness/eq.rs kept as the record; defect F7 documented from a native reproduction only), hashing (SipHash + HAMT), lists / persistent vectors / hash maps / hash sets (1200 s timeouts), substring, make-bytes. One operation at a time, not operation sequences.",
+    text="PARTIAL (sequences only): bounded model checking (Kani/CBMC) of the registered wrappers of bytes-ref, bytes-set!, bytes-copy, string-ref (thorough: bytes->string/utf8, integer->char) on a 2-byte vector / 3-character string with symbolic contents and full-width symbolic integer arguments: the answer is the one the mathematical sequence gives exactly for the valid indices and an error otherwise. Plus an SMT query (z3) over the decision trees of `PartialEq::eq` and `RecursiveEqualityHandler::visit` read from MIR: every kind compared by value at the top level has an arm for nested values (leaf comparison is the same at every depth). Sharing inside values (F7) and hashing are NOT decided by any check. Round 3: SMT queries over the data flow of the real equality handler read from MIR: every two-operand call / comparison of RecursiveEqualityHandler::visit takes one operand from the left and one from the right value, every kind whose arm iterates also compares the two lengths, every key of the visited set is built from both sides (this decides the sharing defect F7 and the hash-set defect, both repaired).",
+    note="Measured out: the real equality handler (drop glue of 37 variants per loop iteration: >1200 s, 12 GB; harness/eq.rs kept as the record; the sharing defect F7 is decided since round 3 by the MIR data-flow queries, not by executing the handler), hashing (SipHash + HAMT), lists / persistent vectors / hash maps / hash sets (1200 s timeouts), substring, make-bytes. One operation at a time, not operation sequences. The data-flow facts say which values meet in a call, not what the callee does with them; hashing agreement is not decided.",
     technique="SAT-based bounded model checking (Kani/CBMC) of real sequence primitives through their registered wrappers against a mathematical-sequence oracle, and SMT (z3, QF_BV) over MIR-extracted arm tables of the two equality matches; native replay by concrete playback / equal? on nested values through the engine",
     design="§4 C11"),
  "C15": dict(engine="mir-bmc",
